@@ -2,6 +2,7 @@ package layerb
 
 import (
 	"fmt"
+	"math/rand"
 	"sort"
 	"strings"
 )
@@ -123,11 +124,94 @@ func enumCases() []enumCase {
 		{Name: "enum_no", Src: rgb("int", "0", "1", "2"), Tgt: rgb("int", "7", "8", "9"), NoEnum: true, ExtraConv: []string{"enum no"}},
 		{Name: "enum_exclude", Src: rgb("int", "0", "1", "2"), Tgt: rgb("int", "7", "8", "9"), NoEnum: true, ExtraConv: []string{"enum:exclude corpus/GRP/pfxsrc:Color"}},
 	}
-	return cases
+	return append(cases, randomEnumCases(map[bool]int{false: 8, true: 80}[enumThorough])...)
+}
+
+var enumThorough bool
+
+// randomEnumCases: seeded random enum pairs - underlying kind, 2..5 members with values that may repeat (aliases
+// keep a common target), targets with other values and extra members, some members re-mapped with enum:map to
+// another target member or to an action - plus single-fault mutants that must be rejected.
+func randomEnumCases(n int) []enumCase {
+	rng := rand.New(rand.NewSource(Seed*32452843 + 29))
+	var out []enumCase
+	names := []string{"Red", "Green", "Blue", "Alpha", "Teal"}
+	for i := 0; i < n; i++ {
+		under := []string{"int", "uint8", "int64", "string", "int32"}[rng.Intn(5)]
+		tunder := under
+		if rng.Intn(4) == 0 {
+			tunder = []string{"int", "string"}[rng.Intn(2)]
+		}
+		lit := func(u string, v int) string {
+			if u == "string" {
+				return fmt.Sprintf("%q", fmt.Sprintf("v%d", v))
+			}
+			return fmt.Sprint(v)
+		}
+		k := 2 + rng.Intn(4)
+		src := enumDef{Under: under}
+		tgt := enumDef{Under: tunder}
+		mapping := map[string]string{}
+		var lines []string
+		vals := rng.Perm(9)
+		for j := 0; j < k; j++ {
+			src.Members = append(src.Members, enumMember{names[j], lit(under, vals[j])})
+			tgt.Members = append(tgt.Members, enumMember{names[j], lit(tunder, 10+vals[(j+3)%9])})
+			mapping[names[j]] = names[j]
+		}
+		// an extra target member nobody maps to by name
+		tgt.Members = append(tgt.Members, enumMember{"Extra", lit(tunder, 40)})
+		// re-map one member explicitly
+		switch rng.Intn(4) {
+		case 0:
+			lines = append(lines, "enum:map "+names[0]+" Extra")
+			mapping[names[0]] = "Extra"
+		case 1:
+			act := []string{"@ignore", "@error", "@panic"}[rng.Intn(3)]
+			lines = append(lines, "enum:map "+names[k-1]+" "+act)
+			mapping[names[k-1]] = act
+		case 2:
+			lines = append(lines, "enum:map "+names[0]+" "+names[1])
+			mapping[names[0]] = names[1]
+		}
+		// an alias of the first member (same value): follows the first member's mapping
+		if rng.Intn(3) == 0 {
+			src.Members = append(src.Members, enumMember{"Alias", src.Members[0].Val})
+			tgt.Members = append(tgt.Members, enumMember{"Alias", tgt.val(stripAction(mapping[names[0]], names[0]))})
+			if isAction(mapping[names[0]]) {
+				lines = append(lines, "enum:map Alias "+mapping[names[0]])
+				mapping["Alias"] = mapping[names[0]]
+			} else {
+				lines = append(lines, "enum:map Alias "+mapping[names[0]])
+				mapping["Alias"] = mapping[names[0]]
+			}
+		}
+		out = append(out, enumCase{Name: fmt.Sprintf("rnd%02d", i), Src: src, Tgt: tgt, Lines: lines, Mapping: mapping})
+		// mutants
+		switch rng.Intn(3) {
+		case 0:
+			bad := src
+			bad.Members = append(append([]enumMember{}, src.Members...), enumMember{"Orphan", lit(under, 77)})
+			out = append(out, enumCase{Name: fmt.Sprintf("rnd%02d_fail_orphan", i), Src: bad, Tgt: tgt, Lines: lines, Mapping: mapping, Fail: "source member Orphan has no target"})
+		case 1:
+			out = append(out, enumCase{Name: fmt.Sprintf("rnd%02d_fail_unknownkey", i), Src: src, Tgt: tgt, Lines: append(append([]string{}, lines...), "enum:map Nope "+names[0]), Mapping: mapping, Fail: "enum:map key Nope does not exist"})
+		default:
+			out = append(out, enumCase{Name: fmt.Sprintf("rnd%02d_fail_unknowntarget", i), Src: src, Tgt: tgt, Lines: append(append([]string{}, lines...), "enum:map "+names[1]+" Nope"), Mapping: mapping, Fail: "enum:map target Nope does not exist"})
+		}
+	}
+	return out
+}
+
+func stripAction(t, dflt string) string {
+	if isAction(t) {
+		return dflt
+	}
+	return t
 }
 
 // FamilyEnum: F-enum (C08).
 func FamilyEnum(thorough bool) []*Conv {
+	enumThorough = thorough
 	var out []*Conv
 	policies := []string{"@error", "@panic", "@ignore", "KEY"}
 	positions := []string{"top", "field", "elem", "mapkey", "mapval"}
